@@ -5,8 +5,8 @@
    path of its parent ++ "/" ++ its name (os.walk's os.path.join; the top is
    os.path.abspath(path), which never ends in "/" unless it is "/" itself -- walking "/"
    is outside the model).  Excluded paths are the os.path.abspath()-ed strings and are
-   compared as the code compares them: os.path.commonprefix((root, e)) == e, i.e. e is a
-   CHARACTER prefix of root.
+   compared as the code compares them (since ca4e69e):
+   root == e or root.startswith(e.rstrip(os.sep) + os.sep).
 
    A directory symlink is listed in `dirs` by os.walk but not descended into
    (followlinks=False): it behaves exactly like an empty directory of that name. *)
@@ -31,6 +31,21 @@ Fixpoint basename_acc (s acc : string) : string :=
   end.
 Definition basename (s : string) : string := basename_acc s s.
 
+(* s.rstrip("/") *)
+Fixpoint rstrip_slash (s : string) : string :=
+  match s with
+  | EmptyString => EmptyString
+  | String c s' =>
+    match rstrip_slash s' with
+    | EmptyString => if Ascii.eqb c "/"%char then EmptyString else String c EmptyString
+    | r => String c r
+    end
+  end.
+
+(* root == e or root.startswith(e.rstrip(os.sep) + os.sep) *)
+Definition excluded_by (e path : string) : bool :=
+  String.eqb path e || prefixb (rstrip_slash e ++ "/") path.
+
 Definition is_special (n : string) : bool := nameb special_dirs n.
 Definition is_test_dir (n : string) : bool :=
   nameb testdir_names n || existsb (fun suf => endswith n suf) testdir_suffixes.
@@ -45,8 +60,8 @@ Section Walk.
   Variable excl : list string.      (* [os.path.abspath(p) for p in excluded_paths] *)
   Variable markers : list string.   (* set(MARKER_FILES) | set(marker_files) *)
 
-  (* os.path.commonprefix((root, e)) == e  for some e *)
-  Definition str_excluded (path : string) : bool := existsb (fun e => prefixb e path) excl.
+  (* root == e or root.startswith(e.rstrip(os.sep) + os.sep)  for some e *)
+  Definition str_excluded (path : string) : bool := existsb (fun e => excluded_by e path) excl.
   Definition is_marker (n : string) : bool := nameb markers n.
   Definition has_marker_dir (subs : list tree) : bool := existsb (fun d => is_marker (tname d)) subs.
   Definition has_marker_file (files : list string) : bool := existsb is_marker files.
@@ -209,7 +224,7 @@ Definition comp_excluded (ecs : list (list string)) (cs : list string) : bool :=
   existsb (fun ec => list_prefixb ec cs) ecs.
 (* exclusion as the code does it, on the rendered strings *)
 Definition string_excluded (ecs : list (list string)) (cs : list string) : bool :=
-  existsb (fun ec => prefixb (render ec) (render cs)) ecs.
+  existsb (fun ec => excluded_by (render ec) (render cs)) ecs.
 
 (* ---- wire helpers for the extracted driver -------------------------------------------- *)
 Definition analyse_of (tbl : list (string * outcome)) (p : string) : outcome :=
@@ -226,20 +241,7 @@ Definition discover_sched (base : string) (t : tree) (excl user : list string)
   let ds := source_dirs excl (all_markers user) base t in
   collect analyse threaded (reorder ds sigma) (reorder ds tau).
 
-(* ---- the decidable guards of the exactness theorems, computed ---------------------------- *)
-(* relative paths of all directories strictly below t *)
-Fixpoint all_rels (t : tree) : list (list string) :=
-  match t with
-  | Dir _ _ subs => flat_map (fun c => [tname c] :: map (cons (tname c)) (all_rels c)) subs
-  end.
-
-(* no excluded path is a character prefix of a directory's path without being a component prefix *)
-Definition alignedb (ecs : list (list string)) (bc : list string) (t : tree) : bool :=
-  forallb (fun rel =>
-             forallb (fun ec => implb (prefixb (render ec) (render (bc ++ rel)%list))
-                                      (list_prefixb ec (bc ++ rel)%list)) ecs)
-          (all_rels t).
-
+(* ---- the decidable guard of the exactness theorems, computed ----------------------------- *)
 (* the root is special-named / excluded, or no directory directly under it is marker-named *)
 Definition root_guardb (ecs : list (list string)) (user : list string) (bc : list string) (t : tree) : bool :=
   is_special (basename (render bc)) || string_excluded ecs bc
